@@ -181,6 +181,15 @@ def run_C08(res):
     g, pl, sp, co = sizes(res, (20, 60, 2000, 300), (300, 120, 60000, 4000))
     ps = gen_positions(res, g, pl, sp, co)
     rnd = random.Random(res.seed)
+    # capture-rich nodes (pawns on the seventh between pieces on the eighth: 20 … 40+ legal captures) — the lists where a fixed-size
+    # capture buffer or an early cut of the capture generator shows (c19e); the family is C19's, used here for clause (b)
+    from props_search import capture_rich_fens
+    rich = [l for l in run_driver(["feninw " + f for f in capture_rich_fens(random.Random(res.seed + 8), 600 * res.escalate if res.tier == "quick" else 8000)])
+            if l not in ("PANIC", "bad-op") and len(l.split()) > 10]
+    ncap = [0 if c in ("PANIC", "DIED") or c.strip() == "-" else len(c.split()) for c in run_hx_par(["caps " + p for p in rich])]
+    rich = [p for p, k in sorted(zip(rich, ncap), key=lambda x: -x[1])][: (150 if res.tier == "quick" else 2000)]
+    res.coverage["capture_rich_positions"] = {"kept": len(rich), "with_33_plus_captures": sum(1 for k in ncap if k >= 33), "max_captures": max(ncap or [0])}
+    ps = ps + [p for p in rich if p not in set(ps)]
     res.coverage["rule"] = ("same position sources as C01; per position: counter vs generator length, capture generator vs filter in order, "
                             "is_capture on every legal move vs the rules, attack queries on random squares/sets vs Spec.attackedBy, perft vs Spec.leaves on a subset")
     ind = run_driver_par(["sind " + p for p in ps])
